@@ -1,0 +1,15 @@
+//go:build verif
+
+// Contracts for package conf, read by /verif/engine (comment-only).
+package conf
+
+// Map iterations in the compile path and why their order cannot influence the compiled program.
+//@ func conf.FieldsFromStruct
+//@   property C09 C16
+//@   case map-range: the body only inserts into (or marks ambiguous in) the result map, keyed by the iterated name
+//@ func conf.CreateTypesTable
+//@   property C09 C16
+//@   case map-range: v.MapKeys() is iterated only to insert key -> type into the result map
+//@ func conf.Config.Check
+//@   property C04 C09 C17
+//@   case map-range: the loops only validate; the order can change which error is reported, never a successful result
